@@ -344,10 +344,26 @@ End FormatTokens.
 (* ---------------------------------------------------------------- format_token / format_block *)
 
 (* pieces of format_block *)
-Definition open_block (o : options) (lparen : ltext) (st : fstate) : fstate :=
+(* the comments in front of `{` (present in the source iff Gen.FmtRules.emits_lbrace_trivia): a block comment is kept in
+   front of the brace, a line comment ends its line; whitespace and newlines of that trivia are dropped *)
+Definition fmt_lbrace_trivium (t : trivia) (st : fstate) : fstate :=
+  match t with
+  | CStyle c => push_type (Some Comment) c st
+  | CppStyle c => push [NL] (push_type (Some Comment) c st)
+  | Whitespace _ | TNewLine => st
+  end.
+Definition fmt_lbrace_trivia (ot : option (list trivia)) (st : fstate) : fstate :=
+  match ot with Some ts => fold_left (fun s t => fmt_lbrace_trivium t s) ts st | None => st end.
+(* `on_new_line`: the last comment of that trivia was a line comment *)
+Definition lbrace_on_new_line (ot : option (list trivia)) : bool :=
+  match ot with
+  | Some ts => fold_left (fun b t => match t with CStyle _ => false | CppStyle _ => true | _ => b end) ts false
+  | None => false
+  end.
+Definition open_block (o : options) (lparen : ltext) (on_new_line : bool) (st : fstate) : fstate :=
   match o_braces o with
   | SameLine => push [NL] (push (l_data lparen) st)
-  | NewLine => push [NL] (push (l_data lparen) (push [NL] st))
+  | NewLine => push [NL] (push (l_data lparen) (if on_new_line then st else push [NL] st))
   end.
 Definition indent_by (k : nat) (st : fstate) : fstate := mkF (f_chunks st) (f_spc st) (f_indent st + k).     (* self.indent += k *)
 Definition dedent_by (k : nat) (st : fstate) : fstate := mkF (f_chunks st) (f_spc st) (f_indent st - k).     (* self.indent -= k *)
@@ -360,7 +376,8 @@ Fixpoint format_token (o : options) (t : token) (st : fstate) {struct t} : fstat
   | Align tag value => fmt_lexpr value (push [SP] (push (l_data tag) st))
   | Assert tag value failure_message =>
       fmt_opt fmt_istring failure_message (spc_if_next (fmt_lexpr value (push [SP] (push (l_data tag) st))))
-  | Braces b | Config b => format_block o b st
+  | Braces b => format_block o false b st
+  | Config b => format_block o true b st
   | ConfigPair key eq value =>
       let st := push [SP] (fmt_loc eq (push [SP] (push (l_data key) st))) in
       format_token o (l_data value) (fmt_otrivia (l_trivia value) st)
@@ -373,18 +390,18 @@ Fixpoint format_token (o : options) (t : token) (st : fstate) {struct t} : fstat
   | Expression e => format_expression e st
   | File tag filename => fmt_istring filename (push [SP] (push (l_data tag) st))
   | If tag_if value if_ tag_else else_ =>
-      let st := format_block o if_ (push [SP] (fmt_lexpr value (push [SP] (push (l_data tag_if) st)))) in
+      let st := format_block o true if_ (push [SP] (fmt_lexpr value (push [SP] (push (l_data tag_if) st)))) in
       match tag_else with
       | Some te =>
           match o_braces o with
           | SameLine =>
               let st := push [SP] (fmt_loc te (push [SP] st)) in
-              match else_ with Some e => format_block o e st | None => st (* Rust: unwrap() panics; the parser never builds this *) end
+              match else_ with Some e => format_block o true e st | None => st (* Rust: unwrap() panics; the parser never builds this *) end
           | NewLine =>
               (* `else` starts a line of its own; when it already does, its trivia carries the line break *)
               let st := if trivia_has_newline (l_trivia te) then st else push [NL] st in
               let st := fmt_loc te st in
-              match else_ with Some e => format_block o e st | None => st end
+              match else_ with Some e => format_block o true e st | None => st end
           end
       | None => st
       end
@@ -395,25 +412,25 @@ Fixpoint format_token (o : options) (t : token) (st : fstate) {struct t} : fstat
                 | Specific args => fmt_arg_specific args st
                 end in
       let st := spc_if_next (fmt_istring filename (push [SP] (fmt_loc from (push [SP] st)))) in
-      match b with Some b => format_block o b st | None => st end
+      match b with Some b => format_block o true b st | None => st end
   | Instruction mnemonic op =>
       let st := spc_if_next (push (casing_format (o_casing o) (l_data mnemonic)) st) in
       clear_spc_if_next (fmt_opt (fmt_operand o) op st)
   | Label_ id colon b =>
       let st := push_type (Some Label) (l_data id ++ [COLON]) st in
-      match b with Some b => format_block o b st | None => st end
-  | Loop tag e b => format_block o b (push [SP] (fmt_lexpr e (push [SP] (push (l_data tag) st))))
+      match b with Some b => format_block o true b st | None => st end
+  | Loop tag e b => format_block o true b (push [SP] (fmt_lexpr e (push [SP] (push (l_data tag) st))))
   | MacroDefinition tag id lparen args rparen b =>
       let st := fmt_loc lparen (fmt_loc id (push [SP] (push (l_data tag) st))) in
-      format_block o b (spc_if_next (fmt_loc rparen (fmt_arg_ids args st)))
+      format_block o true b (spc_if_next (fmt_loc rparen (fmt_arg_ids args st)))
   | MacroInvocation id lparen args rparen =>
       fmt_loc rparen (fmt_arg_exprs args (fmt_loc lparen (push (l_data id) st)))
   | ProgramCounterDefinition star eq value =>
       fmt_lexpr value (push [SP] (fmt_loc eq (push [SP] (push (l_data star) st))))
   | Segment tag id b =>
       let st := push [SP] (fmt_lexpr id (push [SP] (push (l_data tag) st))) in
-      match b with Some b => format_block o b st | None => st end
-  | Test tag id b => format_block o b (spc_if_next (fmt_lexpr id (spc_if_next (push (l_data tag) st))))
+      match b with Some b => format_block o true b st | None => st end
+  | Test tag id b => format_block o true b (spc_if_next (fmt_lexpr id (spc_if_next (push (l_data tag) st))))
   | Text tag encoding text_ =>
       fmt_lexpr text_ (spc_if_next (fmt_opt fmt_loc encoding (spc_if_next (push (l_data tag) st))))
   | Trace tag lparen args rparen =>
@@ -421,10 +438,13 @@ Fixpoint format_token (o : options) (t : token) (st : fstate) {struct t} : fstat
   | VariableDefinition ty id eq value =>
       fmt_lexpr value (push [SP] (fmt_loc eq (push [SP] (fmt_loc id (push [SP] (push (l_data ty) st))))))
   end
-with format_block (o : options) (b : block) (st : fstate) {struct b} : fstate :=
+(* lt = false: format_block_without_lparen_trivia (a block statement: the trivia of `{` is its leading trivia) *)
+with format_block (o : options) (lt : bool) (b : block) (st : fstate) {struct b} : fstate :=
   match b with
   | mkBlock lparen inner rparen =>
-      let st := open_block o lparen st in                       (* the trivia of `{` is not emitted *)
+      let emit := lt && emits_lbrace_trivia in
+      let st := if emit then fmt_lbrace_trivia (l_trivia lparen) st else st in
+      let st := open_block o lparen (if emit then lbrace_on_new_line (l_trivia lparen) else false) st in
       let st := indent_by (o_indent o) st in
       let st := format_tokens_with (format_token o) (Some (l_trivia rparen)) inner true st in
       let st := dedent_by (o_indent o) st in
